@@ -117,6 +117,10 @@ def enumerate_sites(crate, E, fns):
         per_desc = {}
         for b in sorted(live):
             bb = fa.blocks[b]
+            if bb.get("inl") in crate.fns:
+                # an expanded copy of a function that is still part of the crate (it has other
+                # uses too): its sites are audited once, in its own body
+                continue
             for i, s in enumerate(bb["stmts"]):
                 if "rv" in s and s["rv"]["k"] == "cast" and s["rv"]["ck"] == "IntToInt":
                     ft, tt = s["rv"]["from_ty"], s["rv"]["ty"]
